@@ -106,6 +106,10 @@ def gen(rng):
     s["c15"] = {"path": str(rng.choice(PATHS)), "with_results": bool(rng.random() < 0.5), "custom": str(rng.choice(
         ["none", "none", "column", "fluid_const", "fluid_linear", "fluid_poly", "pump_type", "user_options", "controller", "nan_none"])),
         "seed": int(rng.integers(0, 2 ** 31))}
+    if rng.random() < 0.4:
+        # a net created for one sector only (restricted component list); falls back to the default if the generated net
+        # holds a component the sector does not admit
+        s["sector"] = "gas" if s["fluid"] != "water" else str(rng.choice(["heat", "water", "heat"]))
     return s
 
 
@@ -143,7 +147,13 @@ def oracle(spec):
     from pandapipes.toolbox import nets_equal
     v = spec["c15"]
     rng = np.random.default_rng(v["seed"])
-    net = netgen.build(spec)
+    try:
+        net = netgen.build(spec)
+    except Exception:
+        if not spec.get("sector"):
+            raise
+        spec = dict(spec, sector=None)
+        net = netgen.build(spec)
     customise(net, v["custom"], rng)
     if v["with_results"]:
         try:
@@ -182,6 +192,9 @@ def oracle(spec):
             elif d:
                 fail("C15:table:%s:%s" % (k if not k.startswith("res_") else "res", d.split(":")[0].split(" ")[0]),
                      "tables equal incl. dtypes and indices", table=k, difference=d, path=v["path"], custom=v["custom"])
+    extra = sorted(k for k in loaded.keys() if not k.startswith("_") and isinstance(loaded[k], pd.DataFrame) and k not in net)
+    if extra:
+        fail("C15:extra-table", "all element tables equal (none added)", added=extra[:6], path=v["path"], sector=str(net.sector))
     if net.fluid is not None:
         d = fluid_diff(net.fluid, loaded.fluid, rng)
         if d:
@@ -228,7 +241,7 @@ def oracle(spec):
                 fail("C15:rerun-results:%s:%s" % (d[0][0], d[0][1]), "pipeflow on the loaded net gives the same results", first=d[:3],
                      path=v["path"])
     return {"status": "ok", "failures": fails, "hash": netgen.structure_hash(spec) + v["path"] + v["custom"] + str(v["with_results"]),
-            "nontrivial": True, "tags": [v["path"], v["custom"], "res" if v["with_results"] else "nores"],
+            "nontrivial": True, "tags": [v["path"], v["custom"], "res" if v["with_results"] else "nores", "sector:" + str(net.sector)],
             "sample": dict(netgen.summarize(spec), **{k: v[k] for k in ("path", "custom", "with_results")})}
 
 
